@@ -235,7 +235,7 @@ func Date(a Attribute) (time.Time, error) {
 // NewDate returns a new Attribute from the given time.Time.
 func NewDate(t time.Time) (Attribute, error) {
 	unix := t.Unix()
-	if unix > math.MaxUint32 {
+	if unix < 0 || unix > math.MaxUint32 {
 		return nil, errors.New("time out of range")
 	}
 	a := make([]byte, 4)
